@@ -54,6 +54,7 @@ func c16(c *Ctx) {
 	r.Assume("a function returning (conn, err) with err == nil returns a non-nil conn (Go convention; used for net dial functions, Hijack, tls.Client)")
 	r.Assume("(*tls.Conn).Close closes the wrapped connection; brNetConn embeds the connection and inherits its Close")
 	r.Assume("golang.org/x/net/proxy (SOCKS) closes the connections it dials on failure")
+	deadlineDiscipline(c, "C16.deadline-cleared")
 
 	fns := []string{"(*Dialer).DialContext", shortFn(c.returnedFunc("netDialWithDeadline")), shortFn(c.returnedFunc("netDialWithTLSHandshake")), "(*httpProxyDialer).DialContext", "(*Upgrader).Upgrade"}
 	nSites := 0
